@@ -37,6 +37,7 @@ def _run_variant(args):
                 f.write(text)
         res = {}
         for pid in props:
+            chk = None
             try:
                 repo = Repo(tmp)
                 chk = Check(pid, 'quick', repo)
@@ -45,7 +46,10 @@ def _run_variant(args):
                 res[pid] = ('violation', [(v['rule'], v['where'], v['instance'][:120]) for v in chk.violations[:3]]) \
                     if chk.violations else ('clean', [])
             except AnalysisError as e:
-                res[pid] = ('analysis-error', [str(e)[:200]])
+                if chk is not None and chk.violations:       # as in sa/main.py: established violations are reported
+                    res[pid] = ('violation', [(v['rule'], v['where'], v['instance'][:120]) for v in chk.violations[:3]])
+                else:
+                    res[pid] = ('analysis-error', [str(e)[:200]])
             except Exception as e:
                 res[pid] = ('internal-error', [f'{type(e).__name__}: {e}'[:200], traceback.format_exc()[-400:]])
         return idx, res
